@@ -49,3 +49,79 @@ pub fn frontend_hdr_is_reply_for(reply: &[u8; 12], req: &[u8; 12]) -> bool {
 pub fn sub_iovs_offset(iov_lens: &[usize], skip_size: usize) -> (usize, usize) {
     connection::verif_get_sub_iovs_offset(iov_lens, skip_size)
 }
+
+/// Hold points: named places in the code where a verification harness can park a thread.
+/// Unarmed points cost one lock and a lookup and change nothing.
+pub mod hold {
+    use std::collections::HashMap;
+    use std::sync::{Condvar, Mutex};
+    use std::time::{Duration, Instant};
+
+    #[derive(Default, Clone, Copy)]
+    struct Point {
+        armed: bool,
+        held: u32,
+    }
+    static POINTS: Mutex<Option<HashMap<String, Point>>> = Mutex::new(None);
+    static CV: Condvar = Condvar::new();
+
+    /// Called by instrumented code: blocks while the point is armed.
+    pub fn reach(name: &str) {
+        let mut g = POINTS.lock().unwrap();
+        let armed = g.as_ref().and_then(|m| m.get(name)).map(|p| p.armed).unwrap_or(false);
+        if !armed {
+            return;
+        }
+        g.as_mut().unwrap().get_mut(name).unwrap().held += 1;
+        CV.notify_all();
+        while g.as_ref().and_then(|m| m.get(name)).map(|p| p.armed).unwrap_or(false) {
+            g = CV.wait(g).unwrap();
+        }
+        if let Some(p) = g.as_mut().and_then(|m| m.get_mut(name)) {
+            p.held = p.held.saturating_sub(1);
+        }
+        CV.notify_all();
+    }
+
+    /// Park the next thread that reaches `name`.
+    pub fn arm(name: &str) {
+        let mut g = POINTS.lock().unwrap();
+        g.get_or_insert_with(HashMap::new).entry(name.to_string()).or_default().armed = true;
+    }
+
+    /// Wait until a thread is parked at `name`; false on timeout.
+    pub fn wait_held(name: &str, timeout: Duration) -> bool {
+        let t0 = Instant::now();
+        let mut g = POINTS.lock().unwrap();
+        loop {
+            if g.as_ref().and_then(|m| m.get(name)).map(|p| p.held > 0).unwrap_or(false) {
+                return true;
+            }
+            let left = timeout.checked_sub(t0.elapsed());
+            match left {
+                Some(l) if !l.is_zero() => g = CV.wait_timeout(g, l).unwrap().0,
+                _ => return false,
+            }
+        }
+    }
+
+    /// Let the parked thread(s) continue and disarm the point.
+    pub fn release(name: &str) {
+        let mut g = POINTS.lock().unwrap();
+        if let Some(p) = g.as_mut().and_then(|m| m.get_mut(name)) {
+            p.armed = false;
+        }
+        CV.notify_all();
+    }
+
+    /// Disarm everything.
+    pub fn reset() {
+        let mut g = POINTS.lock().unwrap();
+        if let Some(m) = g.as_mut() {
+            for p in m.values_mut() {
+                p.armed = false;
+            }
+        }
+        CV.notify_all();
+    }
+}
